@@ -59,3 +59,14 @@ CHECKS["C02"] = dict(
     assumptions=E1_ASSUME,
     units=[dict(pkg="silence", test="TestVerifC02Obj", shards_quick=16, shards_thorough=16, budget_quick=90, budget_thorough=1200)],
 )
+
+CHECKS["C12"] = dict(
+    level="model_checking",
+    engine="seqx",
+    rule="explicit-state BFS over canonical states (API-visible store content + reference-model content, instants relative to now) of the real silence API handlers on a real silence.Silences; events: creates (now / pending / start in the past / invalid), edits (comment, end +/-/past, start, matchers, unknown id), expire, GC, clock advances 1/2/3 (retention 3); states = distinct canonical states, transitions = events executed",
+    technique="explicit-state model checking of the implementation against a reference lifecycle model (lock-step comparison after every event)",
+    level_text="After every event of every history the real store (GET /silences through the handlers) is compared with a reference lifecycle model written from the statement: fresh ids, start never in the past, id kept exactly for allowed edits, history-rewriting edits expire the old silence and create a new id, unknown ids / past ends / invalid matchers rejected and leaving the store unchanged, idempotent immediate expiry, queryable until end+retention, collected afterwards, pending/active never collected.",
+    level_note="Handlers are called directly (no swagger request validation). Bounds: 2 silence slots, ends +1/+2/+4 s, retention 3 s, depth 5 (quick) / 8 (thorough). Exact boundary instants (now == end) are not generated: the statement does not fix them.",
+    assumptions=E1_ASSUME,
+    units=[dict(pkg="api/v2", test="TestVerifC12", shards_quick=16, shards_thorough=16, budget_quick=90, budget_thorough=1200)],
+)
